@@ -247,11 +247,11 @@ func (cb *CellBuffer) Fill(r rune, style Style) {
 
 // cellWidth is the number of columns a rune occupies as the primary content of a
 // cell.  Format characters (Unicode category Cf: bidi controls and isolates,
-// joiners, invisible operators, tags) do not print, whatever the width tables of
-// the runewidth package say about them; like other zero width runes they are
-// shown as a blank.
+// joiners, invisible operators, tags) and nonspacing or enclosing marks (Mn, Me)
+// do not occupy a column of their own, whatever the width tables of the runewidth
+// package say about them; like other zero width runes they are shown as a blank.
 func cellWidth(r rune) int {
-	if unicode.Is(unicode.Cf, r) {
+	if unicode.In(r, unicode.Cf, unicode.Mn, unicode.Me) {
 		return 0
 	}
 	return runewidth.RuneWidth(r)
